@@ -239,6 +239,16 @@ pub fn dispatch(f: &[&str]) -> String {
             h.insert_raw(HeaderValue::new(name, v));
             hex(h.to_string().as_bytes())
         }
+        "hdr.ctype" => {
+            // Content-Type built by the typed header from caller-supplied text: raw media type string and the rendered field
+            use lettre::message::header::{ContentType, Headers};
+            let Some(t) = utf8(unhex(f[1])) else { return "invalid-utf8".into() };
+            let Ok(ct) = ContentType::parse(&t) else { return "err".into() };
+            let mut h = Headers::new();
+            h.set(ct);
+            let raw = h.get_raw("Content-Type").unwrap_or("").to_string();
+            format!("{}\t{}", hex(raw.as_bytes()), hex(h.to_string().as_bytes()))
+        }
         "hdr.name" => {
             let Some(n) = utf8(unhex(f[1])) else { return "invalid-utf8".into() };
             (lettre::message::header::HeaderName::new_from_ascii(n).is_ok() as u8).to_string()
